@@ -13,7 +13,7 @@ concurrent wakers), at the end of this file.
 -/
 import NexoVerif.Lemmas.BcastLive
 import NexoVerif.Lemmas.BcastLock
-import NexoVerif.Lemmas.TSetThm
+import NexoVerif.Lemmas.TSetOwnerThm
 import NexoVerif.Extracted
 
 namespace NexoVerif.Bcast
@@ -214,6 +214,21 @@ next step is the notification of the parent task). -/
 theorem parent_task_is_notified {n m : Nat} {s : St} (hr : Reach n m s) :
     s.head.cd = s.armed - s.pushes ∧ (0 < s.armed → s.armed ≤ s.pushes → s.fired = true) :=
   parent_is_notified_after_countdown hr
+
+/-- **owner_loop_shape** — read from the source on every run: the loop at the end of `BroadcastFuture::poll` registers the
+parent's waker (when nothing is scheduled) *before* `take_scheduled(1)`, returns `Pending` when that finds nothing and
+otherwise walks the iterator and repeats. -/
+theorem owner_loop_shape : Extracted.bcastRegistersBeforeTake = true := by decide
+
+/-- **parent_does_not_sleep_through_a_sub_task_wake_up** — M-TSET composed with that loop and the parent's
+`DiatomicWaker` (register / notify), waker threads running at any moment, also *during* a poll: whenever the owner has
+returned `Pending`, no waker thread is inside `wake_by_ref` and no notification has reached the parent's registered waker
+since its last poll began, there is no outstanding sub-task wake-up.  So a wake-up that races with the poll loop is
+either served by that poll, or re-schedules the parent, or is still in the hands of a waker thread that has a step. -/
+theorem parent_does_not_sleep_through_a_sub_task_wake_up {n m : Nat} {o : OSt} (hr : OReach n m o)
+    (hidle : o.opc = .idle) (hnw : o.willRun = false) (hq : ∀ w, w < o.t.m → o.t.wpc w = .idle) (i : Nat)
+    (hi : i < o.t.n) : o.t.need i = false :=
+  parent_does_not_sleep_through_a_wakeup hr hidle hnw hq i hi
 
 -- non-vacuity: three tasks, two waker threads racing on the head; both tasks are yielded, one notification
 example : (runLabels exSchedule (St.init 3 2)).map (fun s => (s.yielded, s.notified, s.stack, s.cur, s.err)) =
